@@ -38,14 +38,14 @@ def run(tier, seed):
     scripts = run_cfg(rep, "Gen_FimAuthz", wide, False)
     tc.run_and_validate(rep, scripts, "every slice of the family in every creation order: collect from topology, from the serialised "
                                       "model, and tally", batch_lines=3000,
-                        only_ops=lambda op, clause: op["op"] in ("Collect", "CollectASM", "Tally"))
+                        only_ops=lambda op, clause: op["op"] in ("Collect", "CollectASM", "Tally", "TallyASM"))
     # the collectors must not carry anything from one slice to the next: the same scripts, one process, two orders
     key = lambda s: pipeline.jkey(s)
     seq = sorted(scripts, key=key)
     if tier == "quick":
-        seq = seq[::2]
+        seq = seq[::4]
     for label, order in (("sorted", seq), ("reversed", seq[::-1])):
         tc.run_and_validate(rep, order, "all slices collected one after another in one process (%s order)" % label, procs=1,
-                            batch_lines=3000, only_ops=lambda op, clause: op["op"] in ("Collect", "CollectASM", "Tally"))
+                            batch_lines=3000, only_ops=lambda op, clause: op["op"] in ("Collect", "CollectASM", "Tally", "TallyASM"))
     rep.extra["exhaustive"] = True
     return rep
